@@ -383,6 +383,24 @@ func (dht *IpfsDHT) filterAddrs(addrs []ma.Multiaddr) []ma.Multiaddr
   props C09 C15
   modifies nothing
   ensures imp(dht.addrFilter == nil, result == addrs)
+  # with a filter, the result is what the filter returned for these addresses
+  ghostvar $f []ma.Multiaddr = nil
+  ghostvar $called bool = false
+  ensures [filter-result-unchanged] imp(dht.addrFilter != nil, $called && result == $f)
+  ghost at before call(f): assert($arg0 == addrs)
+  ghost at call(f): $f = $ret0; $called = true
+
+# own advertised addresses: exactly the filter's verdict on the host's
+# addresses - also when that leaves nothing (no fallback to unfiltered ones)
+func (dht *IpfsDHT) FilteredAddrs() []ma.Multiaddr
+  props C15 C06
+  ghostvar $host []ma.Multiaddr = nil
+  ghostvar $out []ma.Multiaddr = nil
+  modifies nothing
+  ensures [exactly-the-filtered-host-addresses] result == $out
+  ghost at call(Addrs): $host = $ret0
+  ghost at before call(filterAddrs): assert($arg0 == $host)
+  ghost at call(filterAddrs): $out = $ret0
 
 func appendFittingProviderPeers(resp *pb.Message, recs iter.Seq[*pb.Message_Peer])
   props C09
@@ -883,6 +901,13 @@ func (dht *IpfsDHT) moveToServerMode() error
   holds dht.modeLk
   modifies dht.mode
   ensures result == nil && dht.mode == modeServer
+  # the handler is registered under EXACTLY the server protocol IDs - the same
+  # IDs moveToClientMode removes and whose open streams it resets (a matcher
+  # accepting other spellings would admit streams the demotion never resets)
+  ghostvar $reg int = 0
+  loop 0 invariant $reg == $key
+  ensures [one-exact-registration-per-protocol] $reg == len(dht.serverProtocols)
+  ghost at before call(SetStreamHandler): assert($arg0 == dht.serverProtocols[$key]); $reg = $reg + 1
 
 func (dht *IpfsDHT) moveToClientMode() error
   props C13 C09
